@@ -80,12 +80,17 @@ def execute(case, ctx):
         except Exception as e:  # noqa: BLE001
             crashed(e, "reset()")
             dead_end = True
-        for _ in range(n if not dead_end else 0):
+        abandon_at = rng.randrange(n) if k < 0 and rng.random() < 0.5 else None  # some of the random episodes are abandoned midway
+        for step_no in range(n if not dead_end else 0):
             try:
                 av = d.available_operations()
             except Exception as e:  # noqa: BLE001
                 crashed(e, "available_operations()")
                 dead_end = True
+                break
+            if step_no == abandon_at:
+                dead_end = True  # the user looked at what is available and gave the episode up: the next one starts with reset()
+                ctx.probe("random_episode_abandoned")
                 break
             if not av:
                 # nothing survives the filter although operations are ready: this filtered history cannot be
